@@ -501,10 +501,10 @@ func (e *Engine) TranslateFunc(key string) (res *funcResult) {
 		}
 		// allocation counters only grow (engine-level invariant, checked like any other)
 		if _, used := t.globals["allocTop"]; used {
-			ls.Invs = append(ls.Invs, NamedExpr{"$alloc-monotone", And(th.ALe(t.oldOf(t.allocTop()), t.allocTop()), th.ALt(t.allocTop(), th.AddrLit(addrLimit))), fc.Props})
+			ls.Invs = append(ls.Invs, NamedExpr{"$alloc-monotone", th.ALe(t.oldOf(t.allocTop()), t.allocTop()), fc.Props})
 		}
 		if _, used := t.globals["objTop"]; used {
-			ls.Invs = append(ls.Invs, NamedExpr{"$obj-monotone", And(th.ALe(t.oldOf(t.objTop()), t.objTop()), th.ALt(t.objTop(), th.AddrLit(1<<16))), fc.Props})
+			ls.Invs = append(ls.Invs, NamedExpr{"$obj-monotone", th.ALe(t.oldOf(t.objTop()), t.objTop()), fc.Props})
 		}
 		f.blocks[h].Loop = ls
 	}
@@ -535,8 +535,16 @@ func (e *Engine) TranslateFunc(key string) (res *funcResult) {
 	}
 	pre.Goto(entry)
 	t.proc.RangeFact = func(c *Cell) Expr {
-		if c.Name == "H_$rdData" || c.Name == "H_$wrData" || c.Name == "H_$xxhData" {
-			// ghost byte sequences hold bytes (also inside spec-library macros)
+		// modelling device: object ids and addresses stay inside their id spaces
+		if c.Name == "objTop" {
+			return th.ALt(c, th.AddrLit(1<<16))
+		}
+		if c.Name == "allocTop" {
+			return th.ALt(c, th.AddrLit(addrLimit))
+		}
+		if c.Name == "H_$rdData" {
+			// the source's byte sequence holds bytes (also inside spec-library macros); the sink and
+			// hash sequences get their ranges per read (ElemInv): a quantified axiom per incarnation is costly
 			r := &Var{"r!g", th.Addr()}
 			k := &Var{"k!g", SInt}
 			e := Select(Select(c, r), k)
